@@ -141,7 +141,7 @@ def run(ck, tier):
     # edits BuiltinGlobalVariableTypes / BuiltinFuncSignatures would change both alike: every catalogue entry is
     # linted alone in a fresh process and the tables are dumped before and after (two real observations).
     items = sorted({(v['lvl'], n) for v in uniq for n in [v['subj']] + v['preds']})
-    iin = [{'lvl': l, 'name': n, 'hdr': h} for (l, n) in items for h in (('push', 'pydefault', 'call') if l == 'job' else ('push',))]
+    iin = [{'lvl': l, 'name': n, 'hdr': h} for (l, n) in items for h in (('push', 'pydefault', 'call', 'callx') if l == 'job' else ('push',))]
     vplib.write_jsonl(os.path.join(sd, 'iin.jsonl'), iin)
     vplib.run_harness(['compose-items', os.path.join(sd, 'iin.jsonl'), os.path.join(sd, 'iout.jsonl')], timeout=1800)
     blamed = 0
